@@ -620,6 +620,8 @@ def _init_job(which: str) -> Callable[[], Record]:
                 t0 = SymTensor(t.shape, t.dtype, t.val, None)
                 want[id(t)] = tm_.tensor_binop(it, "/", t0, tm_._TENSOR_METHODS["std"](it, [t0], {})).val
             snap["want"] = want  # type: ignore[assignment]
+            snap["objects"] = {"lin.weight": lin.attrs["weight"], "lin.bias": lin.attrs["bias"], "lin_nb.weight": lin_nb.attrs["weight"], "emb.weight": emb.attrs["weight"]}  # type: ignore[assignment]
+            snap["holders"] = {"lin.weight": (lin, "weight"), "lin.bias": (lin, "bias"), "lin_nb.weight": (lin_nb, "weight"), "emb.weight": (emb, "weight")}  # type: ignore[assignment]
             return it, lambda: (it.call(lookup_fn(it, qual), [root], {}), lin, lin_nb, emb, other, outsider, snap)
 
         def post(p: PathResult, i: int) -> Any:
@@ -631,6 +633,10 @@ def _init_job(which: str) -> Callable[[], Record]:
             written = {e[1].id for e in ctx.effects if e[0] == "inplace"}
             allowed = {lin.attrs["weight"].storage.id, lin_nb.attrs["weight"].storage.id, emb.attrs["weight"].storage.id} if which == "_unit_init_weights" else {lin.attrs["bias"].storage.id}
             ctx.oblige(f"{tag}:writes_exactly_the_linear_and_embedding_{'weights' if which == '_unit_init_weights' else 'biases'}_of_its_argument", written == allowed, written=len(written), expected=len(allowed))
+            # C09: the re-initialisation works IN PLACE -- every parameter stays the same (tagged) object
+            for nm, obj in snap["objects"].items():
+                holder, attr = snap["holders"][nm]
+                ctx.oblige(f"{tag}:parameter_object_kept(tags survive)[{nm}]", holder.attrs.get(attr) is obj and obj.is_parameter)
             ctx.oblige(f"{tag}:other_modules_and_outside_tensors_untouched", all(str(t.val) == snap[id(t)] for t in (other.attrs["weight"], other.attrs["bias"], outsider)))
             if which == "_zero_init_biases":
                 ctx.oblige(f"{tag}:bias_becomes_zero", len(lin.attrs["bias"].val.terms) == 0, val=str(lin.attrs["bias"].val))
@@ -645,4 +651,4 @@ def _init_job(which: str) -> Callable[[], Record]:
 
 
 for _w in ("_unit_init_weights", "_zero_init_biases"):
-    register(Job(f"c17:{_w}", ["C17", "C16"], US + _w, {}, _init_job(_w), shared=True))
+    register(Job(f"c17:{_w}", ["C17", "C16", "C09"], US + _w, {}, _init_job(_w), shared=True))
